@@ -45,8 +45,8 @@ RULE = ("exhaustive: every text over {a,B,space,\\n,(,)} up to the tier's length
         "modelled motion/text object (with counts none/2/3 and operator counts) under d and typed alone, plus every "
         "operator (d c y g? gu gU g~ > <, \"x register variants) on a rotating motion subset; every TextObject(start,"
         "end,type) with in-range offsets called directly; then seeded random texts (<= 40 chars, quotes, brackets, "
-        "wide chars) with random operator x motion x counts incl. motions that are oracle-only (ge gE g_ | % { } ap ; "
-        ", gq ~); a case is non-trivial when some operator changes text, cursor or a register")
+        "wide chars) with random operator x motion x counts incl. motions that are oracle-only (ge gE g_ | % { } ap "
+        "gq ~) and `<f|F|t|T c> <operator> ;|,` sequences that carry the last character find; a case is non-trivial when some operator changes text, cursor or a register")
 EXHAUSTIVE = True
 EXHAUSTIVE_SCOPE = {"quick": "alphabet {a,B,space,\\n,(,)}: len<=1 full product operators x motions x counts; len 2 all motions x d, 10 rotating motions per other operator; len 3 all states, rotating subsets (22 motions x d, 2 per other operator); raw TextObjects over {a,space,\\n} len<=4, all in-range offsets x 3 types",
                     "thorough": "alphabet {a,B,space,\\n,(,)}: len<=2 full product operators x motions x counts, all cursors; len 3 all motions x d, 20 rotating motions per other operator; len 4 all states, rotating subsets (20 motions x d, 3 per other operator); raw TextObjects len<=5"}
@@ -56,7 +56,7 @@ ASSUMPTIONS = ["CPython str slicing semantics; `re` on the word patterns == maxi
                "str.isspace / regex \\s tables regenerated from the interpreter",
                "transform callbacks = ASCII rot13/lower/upper/swapcase in the correspondence (texts use ASCII letters "
                "and caseless symbols there); theorems hold for every callback"]
-PARTIAL_SCOPE = ["gq (reshape_text), ~ as operator, motions ge gE g_ | % { } ap ; , n N H M L gm: end-to-end oracle only (not in the Lean model)",
+PARTIAL_SCOPE = ["gq (reshape_text), ~ as operator, motions ge gE g_ | % { } ap: end-to-end oracle only (not in the Lean model); n N H M L gm not covered",
                  "visual-mode operators (_operator_in_selection) and BLOCK selections not modelled",
                  "register names outside [a-z0-9] (e.g. \"Ad: the deleted text is stored nowhere) are followed by the model but not judged by the oracle",
                  "the cursor position after y / case operators (not part of the property) is compared with the model only",
@@ -67,10 +67,11 @@ RAND_ALPHA = ["a", "B", "c", "d", " ", " ", "\n", "\n", "(", ")", "'", "\"", "."
 
 OPS = ["d", "c", "y", "g?", "gu", "gU", "g~", ">", "<"]
 COUNT_SENSITIVE = {"h", "l", "w", "W", "b", "B", "e", "E", "f", "F", "t", "T", "j", "k", "gg"}
+REPEAT = {";", ","}   # motion = [";"|","] (no previous find) or [";"|",", findkey, findchar, findcount|None]
 NO_MOVE = {"iw", "iW", "aw", "aW", "j", "k", "ib", "ab", "iq", "aq", "ap"}
 LINEWISE = {"j", "k", "G", "gg"}
 # oracle-only motions (key strings); not sent to the model
-EXTRA_MOTIONS = ["ge", "gE", "g_", "|", "%", "{", "}", "ap", ";", ","]
+EXTRA_MOTIONS = ["ge", "gE", "g_", "|", "%", "{", "}", "ap"]
 
 
 # ------------------------------------------------------------------ real editor (one per process)
@@ -125,6 +126,13 @@ def drive(text, cur, clip, keys, tilde=False):
 
 # ------------------------------------------------------------------ ops
 # an op is [opArg|None, opName, reg|None, motArg|None, motion...]; motion = token list
+def prefix_keys(m):
+    """keys typed BEFORE the operator: the character find that `;` / `,` repeat"""
+    if m[0] in REPEAT and len(m) == 4:
+        return ("" if m[3] is None else str(m[3])) + m[1] + m[2]
+    return ""
+
+
 def motion_keys(m):
     k = m[0]
     if k in ("f", "F", "t", "T"):
@@ -138,7 +146,7 @@ def motion_keys(m):
 
 def op_keys(op):
     oa, name, reg, ma, m = op[0], op[1], op[2], op[3], op[4:]
-    s = ""
+    s = prefix_keys(m)
     if oa is not None:
         s += str(oa)
     if reg is not None:
@@ -151,6 +159,8 @@ def op_keys(op):
 
 def motion_tokens(m):
     k = m[0]
+    if k in REPEAT:
+        return f"rep {1 if k == ',' else 0}"
     if k in ("f", "F", "t", "T", "iq", "aq"):
         return f"{k} {ord(m[1])}"
     if k in ("ib", "ab"):
@@ -177,6 +187,16 @@ def base_motions():
         ms.append(["ab", "(", ")", key])
     ms.append(["ib", "[", "]", "["])
     ms.append(["iq", "'"])
+    # repeat motions: without and with a remembered character find
+    ms.append([";"])
+    ms.append([","])
+    for fk in "fFtT":
+        for ch in ["a", " "]:
+            for k in (";", ","):
+                ms.append([k, fk, ch, None])
+    for fk in "fF":
+        for k in (";", ","):
+            ms.append([k, fk, "a", 2])
     return ms
 
 
@@ -190,6 +210,9 @@ def motion_instances():
         inst.append((None, None, m))
         if m[0] in COUNT_SENSITIVE:
             for oa, ma in ARGS[1:]:
+                inst.append((oa, ma, m))
+        elif m[0] in REPEAT and len(m) == 4:
+            for oa, ma in ARGS[1:3]:
                 inst.append((oa, ma, m))
     return inst
 
@@ -236,6 +259,11 @@ def rand_motion(rng):
         return [rng.choice(["ib", "ab"]), l, rr, rng.choice(keys)]
     if r < 10:
         return [rng.choice(["iq", "aq"]), rng.choice(["'", '"', "`"])]
+    if rng.randrange(3) == 0:
+        if rng.randrange(6) == 0:
+            return [rng.choice(";,")]
+        ch = rng.choice([c for c in RAND_ALPHA if c not in ("\n", "\t")])
+        return [rng.choice(";,"), rng.choice("fFtT"), ch, rng.choice([None, None, 2, 3])]
     return [rng.choice(EXTRA_MOTIONS)]
 
 
@@ -333,8 +361,16 @@ def model_lines(case):
         if is_extra(op):
             continue
         m = op[4:]
+        regtok = opt(None if op[2] is None else ord(op[2]))
+        if m[0] in REPEAT and len(m) == 4:
+            rev = 1 if m[0] == "," else 0
+            out.append(f"e2ep {t} {c} {enc_str(clip[0])} {clip[1]} {opt(m[3])} {m[1]} {ord(m[2])} "
+                       f"{opt(op[0])} {op[1]} {regtok} {opt(op[3])} {rev}")
+            if op[1] == "d" and op[2] is None and op[0] is None:
+                out.append(f"mvp {t} {c} {opt(m[3])} {m[1]} {ord(m[2])} {opt(op[3])} {rev}")
+            continue
         out.append(f"e2e {t} {c} {enc_str(clip[0])} {clip[1]} {opt(op[0])} {op[1]} "
-                   f"{opt(None if op[2] is None else ord(op[2]))} {opt(op[3])} {motion_tokens(m)}")
+                   f"{regtok} {opt(op[3])} {motion_tokens(m)}")
         if op[1] == "d" and op[2] is None and op[0] is None and m[0] not in NO_MOVE:
             out.append(f"mv {t} {c} {opt(op[3])} {motion_tokens(m)}")
     return out
@@ -363,8 +399,12 @@ def run_case(case):
         r = drive(case["text"], case["cur"], case["clip"], op_keys(op), tilde=(op[1] == "~"))
         mvr = None
         m = op[4:]
+        pre = prefix_keys(m)
+        # the state the operator starts from: after the character find typed as a movement
+        r["base_cur"] = drive(case["text"], case["cur"], case["clip"], pre)["cur"] if pre else case["cur"]
         if op[1] == "d" and op[2] is None and op[0] is None and m[0] not in NO_MOVE:
-            mvr = drive(case["text"], case["cur"], case["clip"], ("" if op[3] is None else str(op[3])) + motion_keys(m))
+            mvr = drive(case["text"], case["cur"], case["clip"],
+                        pre + ("" if op[3] is None else str(op[3])) + motion_keys(m))
         res.append((r, mvr))
     _CACHE["case"], _CACHE["res"] = case, res
     return res
@@ -457,8 +497,13 @@ def fails(text, cur, m, count, has_count=False):
         if has_count:
             return None   # N% : jump to a percentage of the file (linewise), never fails
         return True if text[cur:cur + 1] not in tuple("()[]{}<>") or text[cur:cur + 1] == "" else None
-    if k in (";", ","):
-        return True   # no previous f/F/t/T in a fresh state
+    if k in REPEAT:
+        if len(m) < 4:
+            return True   # no previous f/F/t/T in a fresh state
+        backwards = (m[1] in "FT") != (k == ",")
+        if backwards:
+            return text[ls:cur].count(m[2]) < count
+        return text[cur + 1:le].count(m[2]) < count if cur < le else True
     return None
 
 
@@ -485,6 +530,14 @@ def span_spec(text, cur, m, count):
         for _ in range(count):
             idx = text.rindex(m[1], ls, idx)
         return (idx if k == "F" else idx + 1, cur, False)
+    if k in REPEAT and len(m) == 4:
+        # `;` repeats the find in its direction, `,` in the opposite one; a backward repeat is an
+        # exclusive motion (up to, not including, the cursor), a forward one includes the target
+        backwards = (m[1] in "FT") != (k == ",")
+        idx = cur
+        for _ in range(count):
+            idx = text.rindex(m[2], ls, idx) if backwards else text.index(m[2], idx + 1, le)
+        return (idx, cur, False) if backwards else (cur, idx + 1, False)
     if k in LINEWISE:
         row = row_of(text, cur)
         last = text.count("\n")
@@ -544,7 +597,8 @@ def check_op(case, op, r, dref):
     text, clip = case["text"], case["clip"]
     oa, name, reg, ma, m = op[0], op[1], op[2], op[3], op[4:]
     # a leading count is a key handler of its own: the cursor is normalised after it
-    cur = vi_fix(text, case["cur"]) if oa is not None else case["cur"]
+    base = r.get("base_cur", case["cur"])
+    cur = vi_fix(text, base) if oa is not None else base
     v = []
     keys = op_keys(op)
 
@@ -675,7 +729,7 @@ def check_move(case, op, r, mvr):
         return []
     if op[4] == "%" and op[3] is not None:
         return []   # N% is a linewise jump to a percentage of the file
-    text, cur = case["text"], case["cur"]
+    text, cur = case["text"], r.get("base_cur", case["cur"])
     if vi_fix(text, cur) != cur:
         return []   # not a navigation-mode cursor: the key processor moves it after the motion / count key
     p = mvr["cur"]
